@@ -386,8 +386,8 @@ def signature(case, raised):
     for i, s in enumerate(steps):
         if kinds[i] == "right" and i > 0:
             return "C02/right-join-not-first-in-chain"
-    if kinds and kinds[0] == "right" and steps[0]["on"] is not None:
-        form = "name-join" if steps[0]["on"][0] == "names" else "expr-join"
+    if kinds and kinds[0] == "right":
+        form = "name-join" if (steps[0]["on"] and steps[0]["on"][0] == "names") else "expr-join"
         if collisions(case, 0) or len(steps) > 1:
             return f"C02/right-join-column-order/{form}" + ("" if len(steps) == 1 else "/chain")
     # the hidden right side of an earlier semi/anti join still takes part in the position-based resolution
